@@ -815,15 +815,61 @@ func Check(res *Result) []Fail {
 	}
 	// ---- C05 idempotence
 	if sc.Idempotent {
+		// classify by the history shape so that known findings stay specific
+		stamps := map[int][]string{} // id -> "epoch/seq" of every appended copy
+		for p := int32(0); p < sc.Partitions; p++ {
+			for _, r := range res.Logs[p] {
+				stamps[idOfRecord(r)] = append(stamps[idOfRecord(r)], fmt.Sprintf("%d/%d", r.Epoch, r.Seq))
+			}
+		}
+		// the producer bumps its epoch (and resets every sequence counter) when a message that already
+		// carries a sequence number fails: everything that follows is "after an epoch bump"
+		bumped := false
+		stamped := map[int]bool{}
+		for _, e := range res.Events {
+			if e.Kind == "pp.seq" {
+				stamped[e.ID] = true
+			}
+			if e.Kind == "ret.err" && stamped[e.ID] {
+				bumped = true
+			}
+		}
+		shape := func(id int) string {
+			st := stamps[id]
+			if len(st) < 2 {
+				if bumped {
+					return "after-epoch-bump"
+				}
+				return "no-epoch-bump"
+			}
+			e0 := strings.Split(st[0], "/")[0]
+			same := true
+			for _, x := range st[1:] {
+				if strings.Split(x, "/")[0] != e0 {
+					same = false
+				}
+			}
+			if !same {
+				return "copies-in-different-epochs"
+			}
+			if st[0] == st[1] {
+				return "copies-with-same-epoch-and-sequence"
+			}
+			return "copies-resequenced-within-epoch"
+		}
 		for id, c := range copies {
 			if c > 1 {
-				add("C05:duplicate-append", "message %d appears %d times in the log", id, c)
+				add("C05:duplicate-append:"+shape(id), "message %d appears %d times in the log (epoch/sequence of the copies: %v)", id, c, stamps[id])
 				break
 			}
 		}
 		for _, o := range res.Outcomes {
 			if o.Ok && submitted[o.ID] && copies[o.ID] != 1 {
-				add("C05:success-not-in-log-exactly-once", "message %d reported successful, copies in log: %d", o.ID, copies[o.ID])
+				kind := "never-appended"
+				if copies[o.ID] > 1 {
+					kind = "appended-more-than-once"
+				}
+				add("C05:success-"+kind+":"+shape(o.ID), "message %d reported successful, copies in log: %d", o.ID, copies[o.ID])
 				break
 			}
 		}
@@ -847,16 +893,25 @@ func Check(res *Result) []Fail {
 			rk := fmt.Sprintf("%d/%d/%d", b.Partition, b.Epoch, b.FirstSeq)
 			if prev, ok := seenRange[rk]; ok {
 				if prev != content {
-					add("C05:resend-differs", "partition %d epoch %d firstSeq %d sent with records [%s] and again with [%s]", b.Partition, b.Epoch, b.FirstSeq, prev, content)
+					rsig := "C05:resend-differs:no-epoch-bump"
+					if bumped {
+						rsig = "C05:resend-differs:after-epoch-bump"
+					}
+					add(rsig, "partition %d epoch %d firstSeq %d sent with records [%s] and again with [%s]", b.Partition, b.Epoch, b.FirstSeq, prev, content)
 				}
 				continue
 			}
 			seenRange[rk] = content
 			k := key{b.Partition, b.Epoch}
 			if b.FirstSeq != next[k] {
-				ssig := "C05:sequence-not-consecutive"
-				if b.Epoch > 0 {
-					ssig = "C05:sequence-not-consecutive-after-epoch-bump"
+				ssig := "C05:sequence-not-consecutive:no-epoch-bump"
+				if bumped {
+					ssig = "C05:sequence-not-consecutive:after-epoch-bump"
+				}
+				if b.FirstSeq < next[k] {
+					ssig += ":overlaps-earlier-batch"
+				} else {
+					ssig += ":gap"
 				}
 				add(ssig, "partition %d epoch %d: batch starts at sequence %d, expected %d (request %d)", b.Partition, b.Epoch, b.FirstSeq, next[k], b.ReqNo)
 			}
@@ -973,4 +1028,38 @@ func TraceLines(res *Result) []string {
 	}
 	lines = append(lines, fmt.Sprintf("end %d", closed))
 	return lines
+}
+
+// BrokerLines renders the idempotence decisions of the simulated brokers as operation lines for the Lean broker
+// model: one line per batch that reached the producer-id/epoch/sequence check, with the simulated verdict.
+func BrokerLines(res *Result) (ops, answers []string) {
+	for _, b := range res.Batches {
+		if b.Pid < 0 {
+			continue
+		}
+		ans := ""
+		switch {
+		case b.Appended:
+			ans = fmt.Sprintf("app %d", b.Base)
+		case b.Dup:
+			ans = fmt.Sprintf("dup %d", b.Base)
+		case b.Verdict == sarama.ErrOutOfOrderSequenceNumber:
+			ans = "ooo"
+		case b.Verdict == sarama.ErrInvalidProducerEpoch:
+			ans = "fenced"
+		default:
+			continue // faulted before the check (error without append, connection dropped, not leader)
+		}
+		var ids []string
+		for _, r := range b.Records {
+			ids = append(ids, strconv.Itoa(idOfRecord(r)))
+		}
+		pl := "-"
+		if len(ids) > 0 {
+			pl = strings.Join(ids, ",")
+		}
+		ops = append(ops, fmt.Sprintf("bb %d %d %d %s", b.Partition, b.Epoch, b.FirstSeq, pl))
+		answers = append(answers, ans)
+	}
+	return
 }
